@@ -216,21 +216,26 @@ class Trace:
         self.violations.append((len(self.steps), what, tag))
 
 
-def run_pair(source, p, rng, n_both, n_single, probe=0.15, reclone=0.08, on_step=None):
+def run_pair(source, p, rng, n_both, n_single, probe=0.15, reclone=0.08, rec=None):
     """Phase A: n_both edits applied to both (each built separately); Phase B: n_single edits applied to one side only.
+    `rec` (optional) is told everything that happens, in order, so that the same history can be replayed in the model.
     Returns (trace, p, c)."""
     tr = Trace(source)
     gen = Gen(rng)
     s0 = snapshot(p)
+    if rec:
+        rec.start(p)
     c = p.clone()
     if snapshot(p) != s0:
         tr.bad("clone() changed the original", "clone-mutates-original")
     for w in same(p, c):
         tr.bad("after clone(): " + w, "fresh-clone:" + w.split(":")[0])
-    if on_step:
-        on_step("clone", None, p, c)
     for i in range(n_both):
+        if tr.violations:
+            break
         spec = edit_for(gen, p)
+        if rec:
+            rec.step("both", spec, p)
         op_, oc_ = apply_edit(p, spec), apply_edit(c, spec)
         step = {"side": "both", "spec": spec, "out_p": op_, "out_c": oc_}
         if op_ != oc_:
@@ -238,10 +243,10 @@ def run_pair(source, p, rng, n_both, n_single, probe=0.15, reclone=0.08, on_step
         ws = same(p, c)
         step["eq"] = not ws
         tr.steps.append(step)
+        if rec:
+            rec.after([op_, oc_], not any(w.startswith(("original != clone", "clone != original")) for w in ws))
         for w in ws:
             tr.bad("after edit %s on both: %s" % (spec["op"], w), "diverged:" + spec["op"] + ":" + w.split(":")[0])
-        if on_step:
-            on_step("both", spec, p, c)
         if tr.violations:
             break
         r = rng.random()
@@ -258,13 +263,15 @@ def run_pair(source, p, rng, n_both, n_single, probe=0.15, reclone=0.08, on_step
             for w in same(p, c):
                 tr.bad("re-clone after %d edits: %s" % (i + 1, w), "reclone:" + w.split(":")[0])
             tr.steps.append({"side": "reclone"})
-            if on_step:
-                on_step("reclone", None, p, c)
+            if rec:
+                rec.reclone()
     if not tr.violations:
         for j in range(n_single):
             side = "p" if j % 2 == 0 else "c"
             tgt, oth = (p, c) if side == "p" else (c, p)
             spec = edit_for(gen, tgt)
+            if rec:
+                rec.step(side, spec, tgt)
             so = guard(oth)
             out = apply_edit(tgt, spec)
             tr.steps.append({"side": side, "spec": spec, "out": out})
@@ -272,6 +279,12 @@ def run_pair(source, p, rng, n_both, n_single, probe=0.15, reclone=0.08, on_step
                 tr.bad("edit %s on %s changed the other problem" % (spec["op"], "original" if side == "p" else "clone"),
                        "aliasing:" + spec["op"])
                 break
-            if on_step:
-                on_step(side, spec, p, c)
+            if rec:
+                try:
+                    e = bool(p == c)
+                except Exception:
+                    e = None
+                rec.after([out], e)
+    if rec:
+        rec.finish(p, c)
     return tr, p, c
